@@ -47,6 +47,8 @@ def work(ctx):
                 ctx.case("(let code := %s in ser_bool (rt_wf_deep cfg (PCode code) && rt_extra_deep cfg (PCode code)) ++ match to_code_data cfg code with "
                          "OK d => match from_code_data cfg d with OK c2 => ser_bool (zlist_eqb (ser_pycode c2) (ser_pycode code)) | Err _ => [2] end "
                          "| Err _ => [3] end)" % E.g_pycode(k), [1, 1], "rt_wf_deep, rt_extra_deep and K3 conclusion on %s:%s" % (origin, k.co_name), "wf-monitor")
+                # the domain of the full theorem (from_code succeeds and round trip is the identity): a boolean on the code object alone
+                ctx.case("ser_bool (total_wf_deep cfg (PCode %s))" % E.g_pycode(k), [1], "total_wf_deep on %s:%s" % (origin, k.co_name), "wf-monitor")
                 ncases += 1
             except E.Unsupported:
                 ctx.count("unsupported-constant")
@@ -54,6 +56,18 @@ def work(ctx):
 
     for origin, k in corpus.code_objects(ctx.tier, rng):
         check(origin, k, False)
+    # every __future__ feature the compiler accepts, alone and with a function / class / lambda inside
+    import __future__
+    for feat in __future__.all_feature_names:
+        src = "from __future__ import %s\ndef f(a, *b, c=1, **d):\n    return (lambda: a)()\nclass K:\n    x: int = 1\ny = [i for i in (1, 2)]\n" % feat
+        try:
+            top = compile(src, "<future-%s>" % feat, "exec", dont_inherit=True)
+        except (SyntaxError, ValueError):
+            ctx.count("future-uncompilable")
+            continue
+        ctx.count("future-feature-programs")
+        for k in corpus.walk(top):
+            check("future[%s]" % feat, k, k is top)
     # line tables at the assembler's boundaries, on real code objects
     for what, k in linecodes.boundary_codes(rng, ctx.quick):
         ctx.count("boundary-line-tables")
